@@ -253,6 +253,24 @@ theorem sshAllowed_total (e : Engine) (host : Bool) (n : Names) (ps : List Str) 
   have h := validateNames_total e
   unfold sshAllowed; grind
 
+/-- the section dispatch never aborts either: in particular a certificate of a type whose section is absent is
+    refused, not evaluated against a missing engine -/
+theorem sshDispatch_total (own other : Option Engine) (host : Bool) (n : Names) (ps : List Str) :
+    sshDispatch own other host n ps ≠ .verdict .crash := by
+  unfold sshDispatch
+  split
+  · simp
+  · simp
+  · exact sshAllowed_total _ host n ps
+
+/-- a policy that has only the other certificate type's section refuses every certificate of this type -/
+theorem ssh_other_section_only_denies (o : Engine) (host : Bool) (n : Names) (ps : List Str) :
+    sshDispatch none (some o) host n ps = .verdict (.deny .notAllowed .principal) := rfl
+
+/-- with its own section present the other section is irrelevant -/
+theorem ssh_own_section_decides (e : Engine) (other : Option Engine) (host : Bool) (n : Names) (ps : List Str) :
+    sshDispatch (some e) other host n ps = sshAllowed e host n ps := rfl
+
 /-! ### totality of rule normalisation (`policy.New` on any configuration strings) -/
 
 theorem normEmail_ne_crash (raw : Str) (i : Option Str) : normEmail raw i ≠ .crash := by
